@@ -43,7 +43,7 @@ var vKinds = []ExpressionType{ExpressionTypeKey, ExpressionTypeFilter, Expressio
 func VerifC20Dispatch() {
 	cap := nd.Param("cap", 3)
 	e1, e2 := vText("e1", cap), vText("e2", cap)
-	tables := []string{"t1", "t2"}
+	tables := []string{"t", "tx"} // one name is a prefix of the other: the registry key must keep them apart
 	regTable, reqTable := tables[nd.Choice("regtable", 2)], tables[nd.Choice("reqtable", 2)]
 	ni := NewNativeInterpreter()
 	same := vNormal(e1) == vNormal(e2)
